@@ -423,7 +423,7 @@ def main():
             cleanup()
     elif a.cmd == "recheck":
         have = load_results(a.out)
-        surv = [{k: r[k] for k in ("file", "k", "line", "op", "desc")} for r in have.values() if r["status"] == "survived"]
+        surv = [{k: r[k] for k in ("file", "k", "line", "op", "desc")} for r in have.values() if r["status"] == "survived" and (not files or r["file"] in files)]
         print(f"{len(surv)} survivors to re-run at scale {a.scale}", flush=True)
         try:
             pool_jobs(surv, a, checks_override=ALL if a.all_checks else None)
